@@ -181,7 +181,7 @@ func checkMain(repo, verif string, args []string) int {
 	names := w.cone(*prop)
 	reps := genAll(w, names)
 	lemObls, lemErr := genLemmas(w, func(l *Lemma) bool {
-		if l.Export {
+		if l.Export || w.lemmaUses[l.Name] {
 			return true
 		}
 		for _, p := range l.Props {
